@@ -247,5 +247,42 @@ def check_counts_and_reference(tier, seed):
     return {"bound": "one synthetic BAM x MAPQ {0,20} x 8 keep-flag combinations x 2 samples + reference mismatch", "evaluations": ev, "distinct_nontrivial": ev, "failures": fails, "samples": [{"cases": ev}], "exhaustive": False}
 
 
-CHECKS = [check_extract, check_counts_and_reference]
+def check_cli_filter_wiring(tier, seed):
+    """the read-filter options given on the command line reach the extraction: for every program and every combination of
+    --keep-duplicate-reads / --keep-qcfail-reads / --keep-supplementary-reads / --mapping-quality the program object
+    built by the real CLI parser carries exactly those settings (they are what encode_sample_reads forwards)"""
+    import mchap
+    from mchap.application import assemble, call, call_exact, call_pedigree
+
+    data = os.path.join(os.path.dirname(mchap.__file__), "tests", "test_io", "data")
+    bams = [os.path.join(data, "simple.sample1.bam"), os.path.join(data, "simple.sample2.deep.bam"), os.path.join(data, "simple.sample3.bam")]
+    hap = os.path.join(data, "simple.output.mixed_depth.assemble.vcf")
+    progs = {
+        "assemble": (assemble.program, ["--targets", os.path.join(data, "simple.bed.gz"), "--variants", os.path.join(data, "simple.vcf.gz"), "--reference", os.path.join(data, "simple.fasta")]),
+        "call": (call.program, ["--haplotypes", hap]),
+        "call-exact": (call_exact.program, ["--haplotypes", hap]),
+        "call-pedigree": (call_pedigree.program, ["--haplotypes", hap, "--sample-parents", os.path.join(data, "simple.pedigree.132.txt")]),
+    }
+    ev = 0
+    fails = []
+    for name, (cls, extra) in progs.items():
+        for kd, kq, ks in itertools.product((False, True), repeat=3):
+            for mq in (None, 0, 35):
+                cmd = ["mchap", name, "--bam"] + bams + ["--ploidy", "4"] + extra
+                cmd += ["--keep-duplicate-reads"] * kd + ["--keep-qcfail-reads"] * kq + ["--keep-supplementary-reads"] * ks
+                if mq is not None:
+                    cmd += ["--mapping-quality", str(mq)]
+                ev += 1
+                try:
+                    prog = cls.cli(cmd)
+                    got = {"skip_duplicates": bool(prog.skip_duplicates), "skip_qcfail": bool(prog.skip_qcfail), "skip_supplementary": bool(prog.skip_supplementary), "mapping_quality": int(prog.mapping_quality)}
+                except Exception as ex:
+                    got = repr(ex)
+                want = {"skip_duplicates": not kd, "skip_qcfail": not kq, "skip_supplementary": not ks, "mapping_quality": 20 if mq is None else mq}
+                if got != want and len(fails) < 3:
+                    fails.append({"key": "rt/cli_read_filter_options_reach_the_program", "check": "mchap.application.arguments.collect_default_program_arguments", "input": {"program": name, "options": [c for c in cmd if c.startswith("--keep") or c.startswith("--mapping")] + ([str(mq)] if mq is not None else [])}, "observed": got, "expected": want})
+    return {"bound": "4 programs x 8 keep-flag combinations x mapping quality {default, 0, 35} through the real CLI parser", "evaluations": ev, "distinct_nontrivial": ev, "failures": fails, "samples": [], "exhaustive": True}
+
+
+CHECKS = [check_extract, check_counts_and_reference, check_cli_filter_wiring]
 REPLAY = {}
